@@ -354,7 +354,17 @@ func guardNil(f *ssa.Function, callee *ssa.Function, pred func(args []ssa.Value)
 
 // guardBool: edges on which the bool result of a call to callee equals want.
 func guardBool(f *ssa.Function, callee *ssa.Function, want bool, pred func(args []ssa.Value) bool) map[edge]bool {
+	var view *ssa.Function
+	if curProg != nil && callee != nil {
+		view = curProg.nilViewOf[callee]
+	}
 	return edgesWhere(f, func(a Atom, holds bool) bool {
+		// callee(args) == (view(args) != nil): a nil test of view's result is a test of the predicate
+		if view != nil && a.Kind == "nil" && holds == !want {
+			if cl, _ := callOf(a.X); cl != nil && calleeOf(&cl.Call) == view {
+				return pred == nil || pred(cl.Call.Args)
+			}
+		}
 		if a.Kind != "bool" || holds != want {
 			return false
 		}
